@@ -25,6 +25,13 @@ var planTable = map[string]Plan{
 }
 
 func init() {
+	acc := func(nt string) Plan {
+		return Plan{Profiles: []string{"access"}, Quick: 60000, Thorough: 1500000, Level: "exploration", Rule: ruleCommon + nt}
+	}
+	planTable["C04"] = acc("data was handed to a client as the requested resource at least once after a revocation trigger (token event on a connection with a token, reaccess event, access reset) had been delivered")
+	planTable["C05"] = acc("at least one call/new request was forwarded or refused after a revocation trigger had been delivered")
+	planTable["C06"] = acc("at least one revocation trigger was delivered while a client held a settled direct subscription it affects")
+	planTable["C10"] = acc("two or more connections with different tokens made requests, or a token reset was delivered")
 	planTable["C15"] = Plan{Profiles: []string{"core"}, Quick: 60000, Thorough: 1500000, Level: "exploration",
 		Rule: ruleCommon + "the run delivered at least one service message to the gateway"}
 }
